@@ -10,6 +10,10 @@ Suites
                  enumerated path, and the add / remove / compare calls of compareProjects.
                  The model is fed the tables of the real Matcher objects (match, sub,
                  prefix, pattern classes) and the os.walk order of the tree.
+  PROJECT-spelled  projects whose l10n / reference directories are reached through one
+                 un-normalised spelling (l10n_base ending in `/`, containing `//` or `/./`;
+                 `cfg/../l10n/...`; `../l10n/...` from a root one level down); the model's file
+                 list carries the paths as os.walk spells them
   PROJECT-multi  2-3 top-level projects in one ProjectFiles / compareProjects run (shared parser
                  env dict, same variable bound differently, cross includes of excluded files
                  through differently spelled paths)
@@ -146,6 +150,7 @@ class Proj:
                            "files": sorted(self.files), "penv": sorted(self.penv.items()),
                            "missing": sorted(getattr(self, "missing", [])),
                            "tops": [c.rel for c in self.top_cfgs()],
+                           "aliases": getattr(self, "aliases", []),
                            "kind": self.kind, "flags": sorted(self.flags)})
 
     def top_cfgs(self):
@@ -183,6 +188,7 @@ def proj_from_text(text):
         if p.top is None:
             p.top = c
     p.locales = sorted(l for l in locs if l)
+    p.aliases = [tuple(a) for a in d.get("aliases", [])]
     if len(d.get("tops", [])) > 1:
         p.tops = d["tops"]
     if d.get("tops"):
@@ -195,7 +201,7 @@ def rel_to(frm_dir, target):
     return os.path.relpath(target, frm_dir or ".")
 
 
-def gen_rule(rng, p, c, mods, lbases):
+def gen_rule(rng, p, c, mods, lbases, refbase=""):
     mod = rng.choice(mods)
     lbase = rng.choice(lbases)
     modtxt = mod
@@ -205,10 +211,10 @@ def gen_rule(rng, p, c, mods, lbases):
         modtxt = "{m}"
     tail = rng.choice(TAILS)
     if rng.random() < 0.08:
-        ref = "%s/en/strings.ftl" % modtxt
+        ref = "%s%s/en/strings.ftl" % (refbase, modtxt)
         l10n = "%s/%s/strings-{locale}.ftl" % (lbase, modtxt)
     else:
-        ref = "%s/en/%s" % (modtxt, tail)
+        ref = "%s%s/en/%s" % (refbase, modtxt, tail)
         l10n = "%s/{locale}/%s/%s" % (lbase, modtxt, tail)
     r = Rule(ref, l10n)
     if rng.random() < 0.12:
@@ -220,7 +226,10 @@ def gen_rule(rng, p, c, mods, lbases):
     return r
 
 
-def gen_project(rng, kind="main"):
+def gen_project(rng, kind="main", spelled=None):
+    """spelled: None | "slash" | "dotdot" | "updir" - the l10n (and reference) directories are
+    reached through ONE un-normalised spelling (`//`, `/./`, `dir/../`, `../` from a deeper
+    root) by every rule of the project"""
     p = Proj()
     p.kind = kind
     p.locales = sorted(rng.sample(LOCALES, rng.randint(1, 3)))
@@ -243,6 +252,25 @@ def gen_project(rng, kind="main"):
     elif mode == 4:     # relative variable of the file
         fenv["base"] = "l10n"
         lbases += ["{base}"] * 2
+    refbase = ""
+    if spelled == "slash":
+        # l10n_base with a trailing slash, a `/./` or a `//`: "{l10n_base}/{locale}/..."
+        v = rng.choice(["{T}/p/l10n/", "{T}/p/./l10n", "{T}/p//l10n"])
+        penv, fenv = {"l10n_base": v}, {}
+        lbases = ["{l10n_base}"]
+        p.aliases = [(v + "/", "{T}/p/l10n/")]
+    elif spelled == "dotdot":
+        penv = {k: v for k, v in penv.items() if k != "l10n_base"}
+        fenv = {}
+        lbases = ["cfg/../l10n"]
+        refbase = rng.choice(["", "cfg/../", "sub/../"])
+        p.aliases = [("{T}/p/cfg/../", "{T}/p/")] + ([("{T}/p/" + refbase, "{T}/p/")] if refbase else [])
+    elif spelled == "updir":
+        # one file whose root is a subdirectory: "../l10n/{locale}/..."
+        penv, fenv = {}, {}
+        lbases = ["../l10n"]
+        refbase = "../"
+        p.aliases = [("{T}/p/alt/../", "{T}/p/")]
     if rng.random() < 0.45:
         fenv["m"] = mods[0]
     if rng.random() < 0.2:
@@ -286,6 +314,10 @@ def gen_project(rng, kind="main"):
         return child_rel
 
     nfiles = rng.choice([1, 1, 2, 2, 3, 3, 4, 5])
+    if spelled == "updir":
+        nfiles = 1
+        top.rel, top.basepath, top.root_rel = "l10n.toml", "alt", "alt/"
+        p.cfgs = {top.rel: top}
     incs = [n for n in names[:3]]
     rng.shuffle(incs)
     children = []
@@ -302,7 +334,7 @@ def gen_project(rng, kind="main"):
             if b.rel not in top.includes:
                 top.includes.append(b.rel)
     nexc = 0
-    if len(p.cfgs) < nfiles or rng.random() < 0.3:
+    if (len(p.cfgs) < nfiles or rng.random() < 0.3) and spelled != "updir":
         nexc = rng.randint(0, 2)
     for rel in names[3:3 + nexc]:
         c = new_child(rel)
@@ -325,7 +357,7 @@ def gen_project(rng, kind="main"):
         cl = [b for b in lbases if all(v in c.env or v in penv for v in re.findall(r"\{(\w+)\}", b))]
         n = rng.randint(1, 4) if c is top else rng.randint(0, 3)
         for _ in range(n):
-            c.rules.append(gen_rule(rng, p, c, mods, cl))
+            c.rules.append(gen_rule(rng, p, c, mods, cl, refbase))
         if getattr(c, "is_exclude", False):
             # excludes usually carve a part out
             for r in c.rules:
@@ -348,7 +380,7 @@ def gen_project(rng, kind="main"):
                 c1.rel in p.cfgs[x].includes for x in top.excludes)
             if in_exclude:
                 pass        # both sides of an excluded rule stay parallel (see `exclude-l10n-only`)
-            elif z < 0.15 and d.ref is not None:
+            elif z < 0.15 and d.ref is not None and not spelled:
                 d.ref = "other/" + d.ref
             elif z < 0.3:
                 d.ref = None if rng.random() < 0.5 else d.ref
@@ -383,16 +415,16 @@ def gen_project(rng, kind="main"):
     for x in reach:
         p.cfgs[x].rules = [r for r in p.cfgs[x].rules if r.ref is not None]
     # exotic features: correspondence only
-    if kind == "main" and rng.random() < 0.06:
+    if kind == "main" and not spelled and rng.random() < 0.06:
         top.rules.append(Rule("mobile/res/values/strings.xml",
                               "mobile/res/values-{android_locale}/strings.xml"))
         p.flags.add("android")
-    if kind == "main" and rng.random() < 0.05:
+    if kind == "main" and not spelled and rng.random() < 0.05:
         m = mods[0]
         top.rules.append(Rule("%s/en/{nope}/*.ftl" % m, "l10n/{locale}/%s/{nope}/*.ftl" % m))
         p.flags.add("unbound")
     # an alternative root for one child
-    if children and not top.excludes and rng.random() < 0.15:
+    if children and not top.excludes and not spelled and rng.random() < 0.15:
         # (with excludes, another root reaches the excluded l10n paths from reference files the
         # excluded rules do not match: the defect of stream `exclude-l10n-only`)
         c = children[-1]
@@ -401,7 +433,7 @@ def gen_project(rng, kind="main"):
             c.root_rel = "alt/"
     # tree ---------------------------------------------------------------------
     files = set()
-    roots = sorted({c.root_rel for c in p.cfgs.values()})
+    roots = [""] if spelled else sorted({c.root_rel for c in p.cfgs.values()})
     for root in roots:
         for mod in mods + ["other"]:
             pool = rng.sample(POOL, rng.randint(3, 7))
@@ -534,7 +566,7 @@ def write_tree(p, T):
     if os.path.exists(md):
         shutil.rmtree(md)
     os.makedirs(pd)
-    for d in ("cfg", "sub"):
+    for d in ("cfg", "sub", "alt"):
         os.makedirs(os.path.join(pd, d))
     for c in p.cfgs.values():
         path = os.path.join(pd, c.rel)
@@ -547,6 +579,26 @@ def write_tree(p, T):
         with open(path, "w") as f:
             f.write(L10N_CONTENT if "/en/" not in rel and "values/" not in rel else REF_CONTENT)
     return pd
+
+
+def visible_files(fs, matchers):
+    """fs plus the un-normalised spellings under which the walks of these matchers see files"""
+    from compare_locales import mozpath
+    out, seen = list(fs), set(fs)
+    for m in matchers:
+        base = m.prefix
+        if os.path.isfile(base):
+            cand = [base]
+        else:
+            b = base if base.endswith("/") else mozpath.dirname(base)
+            if not b or mozpath.normpath(b) == (b.rstrip("/") or "/"):
+                continue
+            cand = [mozpath.join(d, f) for d, _, files in os.walk(b) for f in files]
+        for c in cand:
+            if c not in seen:
+                seen.add(c)
+                out.append(c)
+    return out
 
 
 def walk_files(pd):
@@ -607,6 +659,19 @@ class Oracle:
     def __init__(self, p, T, penv):
         self.p, self.T, self.penv = p, T, penv
         self.pd = T + "/p/"
+
+    def universe(self, fs):
+        """the real files, and their spellings through the project's un-normalised directories"""
+        out, seen = list(fs), set(fs)
+        for sp, real in getattr(self.p, "aliases", []):
+            sp, real = sp.replace("{T}", self.T), real.replace("{T}", self.T)
+            for f in fs:
+                if f.startswith(real):
+                    s2 = sp + f[len(real):]
+                    if s2 not in seen:
+                        seen.add(s2)
+                        out.append(s2)
+        return out
 
     def flatten(self, c, seen):
         """configs in inclusion order, each file once"""
@@ -739,6 +804,7 @@ class Oracle:
                 merge = render(root, r.l10n, dict(env, locale=locale, l10n_base=mergebase), fills)
             return refpath, merge, tests_of(i)
         exp, excl = {}, set()
+        fs = self.universe(fs)
         if not locale:
             # reference self-validation: every covered reference file, paired with itself
             for f in fs:
@@ -888,7 +954,19 @@ def run_one(chk, p, T, locales_to_run, stats):
         built = guarded(lambda: ProjectFiles(locale, cfgs, mergebase=mb))
         pf = built[1] if built[0] == 0 else None
         enum = guarded(lambda: list(pf)) if pf is not None else None
-        queries = list(fs)
+        # the file list of the model: the real files plus, for a matcher whose prefix is not a
+        # normalised path (`..`, `//`, `/./`), the files as os.walk spells them from there
+        try:
+            walked = []
+            for paths in rules:
+                walked.append(paths["l10n"].with_env({"locale": locale or REFERENCE_LOCALE}))
+                if "reference" in paths:
+                    walked.append(paths["reference"])
+            mfs = visible_files(fs, walked)
+        except Exception as e:  # noqa
+            chk.fail("matcher-table-raised", desc, repr(e))
+            continue
+        queries = list(mfs)
         if enum is not None and enum[0] == 0:
             for e in enum[1]:
                 for s in e[:2]:
@@ -954,7 +1032,7 @@ def run_one(chk, p, T, locales_to_run, stats):
                       tests_ids(pt.get("test", [])), olocs(pt.get("locales"))] for pt in n.paths],
                     [node_sx(ch) for ch in n.children]]
         proj_sx = [[node_sx(cfg), [node_sx(x) for x in cfg.excludes]] for cfg in cfgs]
-        fs_ix = [S(f) for f in fs]
+        fs_ix = [S(f) for f in mfs]
         q_ix = [S(q) for q in queries]
         loc_sx = opt(S(locale) if locale is not None else None)
         # with a merge base, a rule that does not use {l10n_base} merges onto the l10n file
@@ -1066,6 +1144,13 @@ def check_enumeration(chk, desc, oracle, locale, mb, fs, built, enum, pf, p):
         chk.fail(sig + "not-sorted-or-duplicate", desc, keys)
         return
     got = {e[0]: e for e in entries}
+    norm = {}
+    for k in keys:
+        norm.setdefault(posixpath.normpath(k), []).append(k)
+    twice = [v for v in norm.values() if len(v) > 1]
+    if twice:
+        chk.fail(sig + "same-file-under-two-spellings", desc, twice[:3])
+        return
 
     def same(m, e):
         return m is not None and (m[0], m[1], m[2], sorted(m[3])) == (e[0], e[1], e[2], sorted(e[3]))
@@ -1113,7 +1198,7 @@ def check_enumeration(chk, desc, oracle, locale, mb, fs, built, enum, pf, p):
                 chk.fail(sig + "lookup-disagrees-reference-mode", desc, {"path": k, "match": str(m)})
                 return
     if locale:
-        for f in fs:
+        for f in oracle.universe(fs):
             if f not in exp and f not in excl:
                 m = pf.match(f)
                 if m is not None and m[0] == f:
@@ -1315,6 +1400,19 @@ def run(chk, runner_ok):
                 flush(chk, model, "PROJECT", reqs, impls, descs)
         if model:
             flush(chk, model, "PROJECT", reqs, impls, descs, final=True)
+        # ---- directories reached through un-normalised spellings -------------------------------
+        for i in range(chk.n(120, 1500)):
+            p = gen_project(rng, kind="spelled", spelled=rng.choice(["slash", "dotdot", "updir"]))
+            todo = [(l, rng.random() < 0.3) for l in p.locales] + [(None, False)]
+            a, b, c = run_one(chk, p, T, todo, stats)
+            reqs += a
+            impls += b
+            descs += c
+            chk.hist("spelled", p.aliases[0][0].replace("{T}/p", ""))
+            if model and len(reqs) >= 400:
+                flush(chk, model, "PROJECT-spelled", reqs, impls, descs)
+        if model:
+            flush(chk, model, "PROJECT-spelled", reqs, impls, descs, final=True)
         # ---- several projects in one run -------------------------------------------------
         for i in range(chk.n(150, 1800)):
             p = gen_multi(rng)
